@@ -113,6 +113,7 @@ func ruleKey(id string, k int) string {
 }
 
 var awkwardSources = []string{
+	`name=" \(x\)` + "\n", `\$_(?:GET|POST)` + "\n", `\$1x` + "\n" + `a${b}` + "\n", "trailing blank \n", `href=" \(` + "\n",
 	"foo\nbar\n", "ls\ncat\n", `a\$b` + "\n", `\"quoted\"` + "\n" + "x\n", `"@rx foo` + "\n", `a "@rx b` + "\n" + "c\n", "a b\n", `a\\b` + "\n", `\x5cd` + "\n",
 	`" \d` + "\n", `[\"']x` + "\n", `^\s*x$` + "\n", "##!+ i\nselect\nunion\n", "##!^ \\b\nfoo\nfob\n", `a" \` + "\n" + `b\n`, "x\\ \n", "uid:932100x\n", "SecRule\nSecAction\n",
 	`"!@rx x` + "\n", "##!> assemble\na\nb\n##!=>\nc\n##!<\n", `\.(?:ht|js)` + "\n", "é\n", `end" \\` + "\n",
@@ -137,7 +138,7 @@ func rulesGen(r *rand.Rand, lane string) *rulesCase {
 		}
 		for k := 0; k < clen; k++ {
 			op := core.Pick(r, "@rx", "@rx", "@rx", "!@rx", "@pm", "@streq", "@detectSQLi")
-			operand := core.Pick(r, "old", `^old\d+$`, `old\"x`, "a b", "", `(?i)o\x5cld`, "old @rx older")
+			operand := core.Pick(r, "old", `^old\d+$`, `old\"x`, "a b", "", `(?i)o\x5cld`, "old @rx older", `name=\" \(x\)`, `a\" \.b\" \d`, `\$old_\d`)
 			if !strings.HasSuffix(op, "rx") {
 				operand = core.Pick(r, "foo bar", "x", "")
 			}
@@ -205,7 +206,7 @@ func (c *rulesCase) tree() sut.Tree {
 	content, _ := c.render(nil)
 	t := sut.Tree{
 		rulesPath: content,
-		"rules/REQUEST-941-APPLICATION-ATTACK-XSS.conf": "SecRule ARGS \"@rx xss\" \\\n    \"id:941100,\\\n    phase:2\"\n",
+		"rules/REQUEST-941-APPLICATION-ATTACK-XSS.conf":     "SecRule ARGS \"@rx xss\" \\\n    \"id:941100,\\\n    phase:2\"\n",
 		"rules/REQUEST_932_APPLICATION_ATTACK_RCE.conf.bak": content,
 		"regex-assembly/toolchain.yaml":                     crsToolchainYAML,
 	}
@@ -235,8 +236,51 @@ func (c *rulesCase) targetValid() (bool, string) {
 	return false, "rule not in the file"
 }
 
+// c11All: update --all on a tree whose assembly files are all valid targets: every addressed operand, and nothing else, changes.
+func c11All(env *core.Env, c *rulesCase) core.Verdict {
+	root := emptyRoot(env)
+	defer rmCase(root)
+	if err := c.tree().Write(root); err != nil {
+		return core.Incon("cannot write tree: %v", err)
+	}
+	v := core.Verdict{Status: core.Held, Features: []string{"lane:all"}, Counts: map[string]int{}}
+	before := sut.Snap(root)
+	over := map[string]string{}
+	for _, key := range sortedKeys(c.Sources) {
+		g := cli(env, root, nil, "regex", "generate", key)
+		if g.Exit != 0 {
+			return core.Verdict{Status: core.Skipped, Msg: "a source does not compile"}
+		}
+		over[key] = string(g.Stdout)
+	}
+	u := cli(env, root, nil, "regex", "update", "--all")
+	if u.Class() == sut.ClassFault || u.Class() == sut.ClassTimeout {
+		return core.Viol("update-crash", "update --all crashed: %s", describe(u))
+	}
+	if u.Exit != 0 {
+		return core.Viol("update-all-fails", "update --all failed although every assembly file addresses an existing @rx operator: %s", describe(u))
+	}
+	got, _ := sut.Read(root, rulesPath)
+	want, _ := c.render(over)
+	if got != want {
+		orig, _ := c.render(nil)
+		return core.Viol("wrong-bytes:all:"+diffKind(got, want, orig), "update --all (assembly files %v) did not replace exactly the addressed operands\n%s", sortedKeys(c.Sources), firstDiff(got, want))
+	}
+	for _, d := range sut.Diff(before, sut.Snap(root)) {
+		if d != "~"+rulesPath {
+			return core.Viol("touches-other-file", "update --all changed %s", d)
+		}
+	}
+	v.Nontrivial = len(c.Sources) >= 2
+	v.Counts["operands_rewritten"] = len(c.Sources)
+	return v
+}
+
 func c11Check(env *core.Env, cc core.Case) core.Verdict {
 	c := cc.(*rulesCase)
+	if c.Lane == "all" {
+		return c11All(env, c)
+	}
 	root := emptyRoot(env)
 	defer rmCase(root)
 	if err := c.tree().Write(root); err != nil {
@@ -503,9 +547,28 @@ func init() {
 	register(&core.Property{
 		ID:    "C11",
 		Level: "exploration",
-		Rule: "generated rules files in CRS layout (1..6 rules, chains of length 0..3, ids sharing the 3-digit prefix and longer ids with the same leading digits, !@rx and non-rx operators, comments that quote ids and SecRule lines (hostile lane: also inside chains and in actions), LF/CRLF, with/without final newline, blanks after `\" \\`) with assembly files whose generated regexes contain $, escaped quotes, `\"@rx `-like text, spaces and backslashes; one update per case on a valid or invalid target (offset beyond the chain, non-rx operator, missing assembly file). " +
+		Rule: "generated rules files in CRS layout (1..6 rules, chains of length 0..3, ids sharing the 3-digit prefix and longer ids with the same leading digits, !@rx and non-rx operators, comments that quote ids and SecRule lines (hostile lane: also inside chains and in actions), LF/CRLF, with/without final newline, blanks after `\" \\`) with assembly files whose generated regexes contain $, escaped quotes, `\"@rx `-like text, spaces and backslashes; one update per case on a valid or invalid target, plus update --all on trees whose assembly files (rules and chained rules, so that NNNNNN-chainK.ra is walked right before NNNNNN.ra) are all valid (offset beyond the chain, non-rx operator, missing assembly file). " +
 			"Oracle: the harness renders the file itself, so the expected result is the original with exactly the addressed operand replaced by `regex generate`'s stdout, byte for byte; every other file of the snapshot unchanged; invalid targets must fail and change nothing. Non-trivial = update changed the file.",
-		Cases:         func(env *core.Env, rng *rand.Rand) []core.Case { return rulesCases(env, rng, 300, 6000) },
+		Cases: func(env *core.Env, rng *rand.Rand) []core.Case {
+			cs := rulesCases(env, rng, 300, 6000)
+			for i, n := 0, env.N(100, 2000); i < n; i++ {
+				// --all: keep only the assembly files that address an existing rx operator
+				c := rulesGen(rng, "plain")
+				c.Lane = "all"
+				keep := map[string]string{}
+				for _, r := range c.Rules {
+					for k, op := range r.Chain {
+						key := ruleKey(r.ID, k)
+						if src, ok := c.Sources[key]; ok && strings.HasSuffix(op.Op, "rx") {
+							keep[key] = src
+						}
+					}
+				}
+				c.Sources = keep
+				cs = append(cs, c)
+			}
+			return cs
+		},
 		Check:         c11Check,
 		Decode:        decoder[rulesCase](),
 		MinNontrivial: 60,
